@@ -53,11 +53,12 @@ def main():
                 kept += 1
                 continue
             notes = {}
+            off = int(os.environ.get("SEED_OFFSET", "0"))
             try:
                 nl = json.load(open(os.path.join(src_dir, "notes.json")))
                 nl = nl if isinstance(nl, list) else nl.get("changes") or nl.get("seeds") or []
                 for n in nl:
-                    if str(n.get("k")) == k:
+                    if str(n.get("k")) == str(int(k) - off):
                         notes = n
             except Exception:
                 pass
@@ -77,6 +78,7 @@ def main():
             meta = {
                 "id": name,
                 "property": pid,
+                "round": 2 if int(k) > 3 else 1,
                 "origin": "written by a fresh sub-agent that was given only the text of property %s and a scratch git worktree of "
                           "/repo; it saw nothing of /verif" % pid,
                 "what_it_changes": notes.get("summary"),
